@@ -482,7 +482,7 @@ func runKillCase(kc KillCase) (*Fail, []string, map[string]int, error) {
 		labels["kill:never-promoted-within-deadline"]++
 		tr("child stderr tail: %s", strings.ReplaceAll(tailStr(child.errb.String(), 1500), "\n", " | "))
 	} else {
-		labels["kill:promoted"]++
+		labels["kill:ended-promoted"]++
 		if killsDone > 0 {
 			labels["kill:promoted-after-kill"]++
 		}
@@ -533,6 +533,10 @@ func TestC07Kill(t *testing.T) {
 	rec := NewRecorder("C07", "TestC07Kill")
 	defer rec.Flush(t)
 	run := func(kc KillCase, fatalf func(string, ...interface{})) {
+		if msg, ok := rec.Tripped(); ok {
+			fatalf("%s", msg)
+			return
+		}
 		cb, _ := json.Marshal(kc)
 		fmt.Printf("C07KILLCASE %s %s\n", time.Now().Format("15:04:05"), cb)
 		f, trace, labels, err := runKillCase(kc)
